@@ -143,7 +143,7 @@ def main():
     na = [{"property_id": p, "reason": "check not built yet (work in progress; planned per DESIGN.md section 5)"} for p in ALL if p not in CHECKS]
     m = {
         "version": 1,
-        "setup_cmd": "cd /verif/harness && GOFLAGS=-mod=mod GOPROXY=off GOSUMDB=off GOTOOLCHAIN=local go vet -tags verif ./... >/dev/null && echo setup ok",
+        "setup_cmd": "cd /verif/harness && GOFLAGS=-mod=mod GOPROXY=off GOSUMDB=off GOTOOLCHAIN=local go vet -tags verif ./... >/dev/null && cd /verif && ./check --warm && echo setup ok",
         "hooks": {
             "guard": "verif (Go build tag)",
             "enable": "go test/build -tags verif (the harness module replaces github.com/jmattheis/goverter by /repo)",
